@@ -108,6 +108,17 @@ def cases_for(c, rng, counter, mode):
         want = "none" if f["default"] is None else ("value" if f["default"] == "value" else "factory")
         if got != want:
             _order_disc.append((describe(c), ["default of %s: %s (%r)" % (f["name"], got, a.default)], ["declared: %s" % want]))
+    # every declared option of every field (own and inherited) is what the DECLARING class's spec says: the model is
+    # fed from the real Attribute objects, so they are cross-checked against the generator's own description here
+    for name, want in expected_field_options(c).items():
+        a = by_name.get(name)
+        if a is None:
+            continue
+        got = {"alias": a.alias, "init": bool(a.init), "converter": a.converter is not None,
+               "validator": a.validator is not None}
+        for k in got:
+            if got[k] != want[k]:
+                _order_disc.append((describe(c), ["%s of %s: %r" % (k, name, got[k])], ["declared: %r" % (want[k],)]))
     spec_t = g.enc_spec(c)
     def_t = g.enc_definition(c)
     try:
@@ -133,6 +144,9 @@ def cases_for(c, rng, counter, mode):
                 t3, js3, _, _ = g.construct(c, pos, kw, fault_at=k)
                 calls_t.append("(%s, %s)" % (g.enc_call(pos, kw, k, True), t3))
                 seen.append({"call": kind + "/fault@%d" % k, "observed": js3})
+    if g.REC.early:
+        _order_disc.append((describe(c), sorted(set(g.REC.early)), ["nothing that follows __attrs_post_init__ in the protocol has happened when it runs"]))
+        g.REC.early.clear()
     term = "(Build_case %s %s %s)" % (spec_t, def_t, vlib.lst(calls_t))
     inp = {"spec": describe(c), "calls": kinds}
     out.append(Case(term, inp, seen, sig={}, nontrivial=bool(attr.fields(c.cls)), key=term))
@@ -158,6 +172,16 @@ def expected_field_names(c):
     own = [f["name"] for f in s["fields"]]
     base = expected_field_names(s["base"]) if s["base"] is not None else []
     return [n for n in base if n not in own] + own
+
+
+def expected_field_options(c):
+    """field name -> {alias, init, converter?, validator?} from the spec of the most derived class declaring it"""
+    s = c.spec
+    out = expected_field_options(s["base"]) if s["base"] is not None else {}
+    for f in s["fields"]:
+        out[f["name"]] = {"alias": f["alias"] or f["name"].lstrip("_"), "init": bool(f["init"]) if not f.get("bare") else True,
+                          "converter": f["converter"] is not None, "validator": bool(f["validator"])}
+    return out
 
 
 _script_terms = []
